@@ -113,7 +113,26 @@ func TestWriteFault(t *testing.T) {
 				if k < 0 || k > len(full) {
 					continue
 				}
-				for mode := 0; mode < 6; mode++ {
+				for mode := 0; mode < 7; mode++ {
+					if mode == 6 {
+						// a healthy device that takes at most k bytes per call and says so with
+						// (k, io.ErrShortWrite): the serializer may fail or resume, but success means
+						// the complete output
+						if k == 0 || k >= len(full) {
+							continue
+						}
+						sw, err, pi := runInto(c, in, core.WriterPlan{FailAt: -1, Chunk: k, ReaderFrom: rf})
+						if pi != nil {
+							c.CheckTotal(in.name, 0, pi, 0)
+						}
+						if c.Oracle("C19") && sw.Chunked > 0 && err == nil && !bytes.Equal(sw.Accepted, full) {
+							c.Violation("partial-output-reported-as-success", in.name, "a device taking %d bytes per call holds %d of %d bytes (or other bytes): serializer returned nil", k, len(sw.Accepted), len(full))
+						}
+						if c.Oracle("C19") && err != nil && sw.CallsAfterChunk == 0 && !bytes.HasPrefix(full, sw.Accepted) {
+							c.Violation("not-a-prefix", in.name, "bytes accepted by a device taking %d bytes per call are not a prefix of the fault-free output", k)
+						}
+						continue
+					}
 					// (mode 4: part of the data is taken, the error says "temporary", the device recovers)
 					short, transient := mode == 1 || mode == 4, mode == 2 || mode == 4
 					if transient && k == len(full) {
@@ -222,7 +241,7 @@ func TestWriteFault(t *testing.T) {
 				c.Probe("real file destination under a size quota")
 			}
 			if len(full) <= limit {
-				core.ExhaustiveDone("C19: every failure position k in [0,len] x {error, short write, one-shot failure, sentinel error value, partial one-shot failure, fixed-size destination} for one artifact", 1)
+				core.ExhaustiveDone("C19: every failure position k in [0,len] x {error, short write, one-shot failure, sentinel error value, partial one-shot failure, fixed-size destination, healthy device taking k bytes per call} for one artifact", 1)
 			}
 			c.Outcome("done")
 			c.Sig("%s/rf%v/len%d", in.name, rf, len(full)/64)
